@@ -462,7 +462,7 @@ Section Main.
      holds unconditionally (also in the F6 shape). *)
   Theorem step_ev_codes m o : is_ctor o = false -> ev_codes m (step m o) = [].
   Proof.
-    intros Hnc. destruct o as [k v|k|a ps|a ps|k v|k d| | |a ps]; cbn [Model.step]; [| | | | | | | |discriminate Hnc].
+    intros Hnc. destruct o as [k v|k|a ps|a ps|k v|k d| | |ps len|a ps]; cbn [Model.step]; [| | | | | | | | |discriminate Hnc].
     - destruct (kv k) as [vk|]; [|apply raise_ev]. destruct (vv v) as [vvv|]; [|apply raise_ev].
       destruct (hashable vk); [apply store_ev | apply raise_ev].
     - destruct (hashable k); cbn [negb]; [|apply raise_ev].
@@ -485,6 +485,7 @@ Section Main.
       + apply mempty_spec in Em. subst m. apply ev_codes_silent. reflexivity.
       + apply ev_codes_one; [apply nodup_nil | apply ev_cleared |].
         unfold ev_nonempty. rewrite Em. reflexivity.
+    - destruct (upd_loop kv vv m ps [] [] []); apply raise_ev.
   Qed.
 
   (* refinement clauses 1, 2, 8 *)
@@ -529,7 +530,7 @@ Section Main.
 
   Theorem step_ref_codes m o : f6_trigger kv vv m o = false -> ref_codes3 m o (step m o) = [].
   Proof.
-    intros Hf. destruct o as [k v|k|a ps|a ps|k v|k d| | |a ps]; cbn [Model.step].
+    intros Hf. destruct o as [k v|k|a ps|a ps|k v|k d| | |ps len|a ps]; cbn [Model.step].
     - destruct (kv k) as [vk|] eqn:Ek.
       + destruct (vv v) as [vvv|] eqn:Ev.
         * destruct (hashable vk) eqn:Eh.
@@ -576,6 +577,9 @@ Section Main.
           rewrite <- (rev_involutive m), Er. reflexivity. }
         subst m. eapply ref_raise; reflexivity.
     - destruct (mempty m); (eapply ref_intro; [reflexivity | reflexivity | reflexivity | reflexivity]).
+    - (* UpdateBad *)
+      rewrite upd_loop_validated. destruct (validate_pairs kv vv ps) as [vps|] eqn:Ev;
+        (eapply ref_raise; [cbn; rewrite Ev; reflexivity | reflexivity]).
     - (* Ctor *)
       rewrite ctor_loop_validated. destruct (validate_pairs kv vv (items_of a ps)) as [vps|] eqn:Ev.
       + eapply ref_intro; [cbn; rewrite Ev; reflexivity | reflexivity | apply mapeq_refl | reflexivity].
@@ -623,7 +627,7 @@ Section Main.
 
   Theorem step_order m o : order_ok kv vv m o (step m o) = true.
   Proof.
-    unfold order_ok. destruct o as [k v|k|a ps|a ps|k v|k d| | |a ps]; cbn [Model.step builtin];
+    unfold order_ok. destruct o as [k v|k|a ps|a ps|k v|k d| | |ps len|a ps]; cbn [Model.step builtin];
       try (destruct (match validate_pairs kv vv (items_of a ps) with
                      | Some vps => (Ok, update_all vps m, RNone)
                      | None => (Raise TraitError, m, RNone)
@@ -655,7 +659,7 @@ Section Main.
     intros c Hin. destruct (f6_trigger kv vv m o) eqn:Hf.
     - split; [reflexivity|]. unfold Law.law_step, Law.ref_codes in Hin.
       rewrite step_ev_part, step_order in Hin. cbn [chk] in Hin. rewrite !app_nil_r in Hin.
-      destruct o as [k v|k|a ps|a ps|k v|k d| | |a ps]; try discriminate Hf.
+      destruct o as [k v|k|a ps|a ps|k v|k d| | |ps len|a ps]; try discriminate Hf.
       cbn [f6_trigger] in Hf. cbn [Model.step] in Hin.
       destruct (lookup k m) as [x|] eqn:El; [discriminate|].
       destruct (kv k) as [vk|] eqn:Ek; [|discriminate]. destruct (vv v) as [vvv|] eqn:Ev; [|discriminate].
@@ -799,7 +803,7 @@ Section Readings.
       + rewrite mapeq_spec in E. specialize (E k). contradiction.
       + cbn in H5. destruct (o_events (step m o)) as [|e [|e2 r]]; try discriminate. exists e. reflexivity.
     - split.
-      + destruct o as [k v|k|a ps|a ps|k v|k d| | |a ps]; cbn [Model.step];
+      + destruct o as [k v|k|a ps|a ps|k v|k d| | |ps len|a ps]; cbn [Model.step];
           repeat match goal with
                  | |- context [match ?x with _ => _ end] => destruct x
                  | |- context [if ?x then _ else _] => destruct x
@@ -808,7 +812,7 @@ Section Readings.
                  | |- context [match ?x with _ => _ end] => destruct x
                  | |- context [if ?x then _ else _] => destruct x
                  end; reflexivity.
-      + destruct o as [k v|k|a ps|a ps|k v|k d| | |a ps]; cbn [Model.step];
+      + destruct o as [k v|k|a ps|a ps|k v|k d| | |ps len|a ps]; cbn [Model.step];
           repeat match goal with
                  | |- context [match ?x with _ => _ end] => destruct x
                  | |- context [if ?x then _ else _] => destruct x
@@ -844,7 +848,7 @@ Section Readings.
   Proof.
     intros He.
     assert (Hshape : forall ob, ob = step m o -> o_out ob = Raise e -> exists e', ob = raise tgt e' m).
-    { intros ob -> Ho. destruct o as [k v|k|a ps|a ps|k v|k d| | |a ps]; cbn [Model.step] in *;
+    { intros ob -> Ho. destruct o as [k v|k|a ps|a ps|k v|k d| | |ps len|a ps]; cbn [Model.step] in *;
         unfold do_update, store, ok, mk in *;
         repeat match goal with
                | H : context [match ?x with _ => _ end] |- _ => destruct x; cbn [o_out] in H; try discriminate H
